@@ -56,8 +56,11 @@ def judge(ctx, lock, label, linkind, cap, trace, timeout=1500):
     rows = vlib.read_ndjson(trace)
     bounds = [i + 1 for i, e in enumerate(rows) if e["ev"] == "New"]
     ends = collections.defaultdict(set)
-    for m in re.finditer(r'<<"END", (\d+), \{([^}]*)\}>>', r.out):
-        ends[int(m.group(1))].add(frozenset(x.strip().strip('"') for x in m.group(2).split(",") if x.strip()))
+    tups = vlib.tuples(r.out, "END")
+    if len(tups) != r.out.count('"END"'):
+        raise vlib.Infra("unparsed END markers in LinQueue output (%s)" % label)
+    for line, used in tups:
+        ends[int(line)].add(frozenset(x.strip().strip('"') for x in used.strip("{}").split(",") if x.strip()))
     j = Judged()
     j.rows = rows
     j.n = len(bounds) - 1
